@@ -35,6 +35,8 @@ def plain_element(rng, regs, SR, chans):
         f1, f2 = rng.choice(["ramp", "ua"]), rng.choice(["ramp", "uc"])
         ops += [("BNew", r), ("BInsert", r, -1, f1, rnd_args(rng, f1, d1), d1, "first"),
                 ("BInsert", r, -1, f2, rnd_args(rng, f2, d2), d2, "last"), ("BSetSR", r, SR), ("EAddBp", e, c, r)]
+        if rng.random() < 0.4:          # sequencer flags of the base element must survive every sweep step
+            ops.append(("EAddFlags", e, c, [rng.choice([0, 1, 2, 3, 4]) for _ in range(4)]))
         meta[str(c)] = {"first": f1, "last": f2, "d2": d2}
     return e, ops, meta
 
@@ -53,6 +55,8 @@ def base_element(rng, regs, SR, chans, T):
         ops += [("BNew", r), ("BInsert", r, -1, f1, rnd_args(rng, f1, d1), d1, "first"),
                 ("BInsert", r, -1, "waituntil", [T], None, None),
                 ("BInsert", r, -1, f2, rnd_args(rng, f2, d2), d2, "last"), ("BSetSR", r, SR), ("EAddBp", e, c, r)]
+        if rng.random() < 0.4:
+            ops.append(("EAddFlags", e, c, [rng.choice([0, 1, 2, 3, 4]) for _ in range(4)]))
         d2b = d2
         meta[str(c)] = {"first": f1, "last": f2, "d2": d2b}
     return e, ops, meta
